@@ -9,6 +9,7 @@ import (
 	"crypto/sha256"
 	"fmt"
 	mrand "math/rand"
+	"os"
 	"strings"
 	"sync"
 	"sync/atomic"
@@ -412,7 +413,7 @@ func unitC05(e common.Env, p *common.Part) {
 // altered PER DESTINATION on the wire (equivocation of commitments, public keys and shares), so the reliable broadcast is
 // what has to keep the honest parties consistent.
 func unitC05orch(e common.Env, p *common.Part) {
-	p.Rule = "BLS and PS key generation through real LoudScheme / SilentScheme objects on the simulated network (random mode); one participant's protocol transmissions are altered per destination on the wire: one victim gets the commitment / public key / share with a flipped byte (or a message of an earlier key generation on the same cluster) while the others get the genuine one; (n,t) in {(3,2),(3,3),(4,3)}; oracle as in c05: honest completers agree and sign jointly under the reported key, or return errors; no panic (a crash in a background goroutine kills the child and is reported by the parent); distinct key = (scheme, mode, n, t, strategy, victim, seed); non-trivial when an altered transmission was delivered"
+	p.Rule = "BLS and PS key generation through real LoudScheme / SilentScheme objects on the simulated network (random mode); one participant's protocol transmissions are altered per destination on the wire: one victim gets the commitment / public key / share with a flipped byte (or a message of an earlier key generation on the same cluster) while the others get the genuine one; or the misbehaving party's second node, which is not a participant, shows the victim another (valid) commitment and key as its party's while the two nodes vouch for each other; (n,t) in {(3,2),(3,3),(4,3)}; oracle as in c05: honest completers agree and sign jointly under the reported key, or return errors; no panic (a crash in a background goroutine kills the child and is reported by the parent); distinct key = (scheme, mode, n, t, strategy, victim, seed); non-trivial when an altered transmission was delivered"
 	type cs struct {
 		sch    scheme
 		n, t   int
@@ -424,7 +425,7 @@ func unitC05orch(e common.Env, p *common.Part) {
 	for _, sch := range []scheme{{Name: "bls"}, {Name: "ps", MsgLen: 1}} {
 		for _, x := range []struct{ n, t int }{{3, 2}, {3, 3}, {4, 3}} {
 			for _, silent := range []bool{false, true} {
-				for _, st := range []string{"equivocate-broadcasts-flip", "equivocate-broadcasts-old-session", "equivocate-everything-flip", "duplicate-with-changed-copy"} {
+				for _, st := range []string{"equivocate-broadcasts-flip", "equivocate-broadcasts-old-session", "equivocate-everything-flip", "duplicate-with-changed-copy", "replica-outside-the-session"} {
 					for v := 2; v <= x.n; v++ {
 						if !e.Thorough() && v > 2 && st != "equivocate-broadcasts-flip" {
 							continue
@@ -452,8 +453,11 @@ func unitC05orch(e common.Env, p *common.Part) {
 			ids = append(ids, uint16(k))
 			m[uint16(k)] = uint16(k)
 		}
+		if c.strat == "replica-outside-the-session" {
+			m[40] = 1 // a second node of the misbehaving party; it is not a participant of the key generation
+		}
 		sch := c.sch
-		cl := cluster.New(cluster.Config{Map: m, Silent: c.silent, Threshold: c.t - 1,
+		cl := cluster.New(cluster.Config{Map: m, Silent: c.silent, Threshold: c.t - 1, Nodes: ids,
 			KGF: func(node uint16) tss.KeyGenerator { return sch.newKG(node) },
 			SF:  func(node uint16) tss.Signer { return sch.newSigner(node) }})
 		go cl.Net.RunRandom(rng, []simnet.Policy{simnet.Uniform, simnet.PreferNewest, simnet.ByReceiver}[i%3])
@@ -533,6 +537,46 @@ func unitC05orch(e common.Env, p *common.Part) {
 			}
 			return o
 		})
+		if c.strat == "replica-outside-the-session" {
+			// The misbehaving party has a second node (40) that is not a participant. Node 1 shows its own commitment and key to
+			// node 2 only; node 40 shows ANOTHER commitment and key (copies of honest node 2's, so a consistent valid pair) to the
+			// victim as its party's, and each of the two nodes vouches for the other's broadcast: node 1 by acknowledging what it
+			// receives from node 40 (its real code does that if it admits node 40), node 40 by re-sending to node 2 the very
+			// acknowledgement node 2 itself transmitted about node 1's broadcast (an acknowledgement does not name its author).
+			// Frames are told apart by the first bit only (acknowledgements start with the 7-bit round), nothing is hand-encoded.
+			victim := c.victim
+			if victim == 2 {
+				victim = 3
+			}
+			pass := func(typ uint8, topic, data []byte, dsts []uint16, skip uint16) []simnet.Outgoing {
+				var o []simnet.Outgoing
+				for _, d := range dsts {
+					if d != skip {
+						o = append(o, simnet.Outgoing{Dst: d, Type: typ, Topic: topic, Data: data})
+					}
+				}
+				return o
+			}
+			cl.Net.SetInterceptor(1, func(nw *simnet.Net, src uint16, typ uint8, topic, data []byte, dsts []uint16) []simnet.Outgoing {
+				if typ == uint8(tss.MsgTypeMPC) && len(dsts) == c.n-1 && len(data) > 30 && data[0]>>7 == 1 {
+					atomic.AddInt32(&altered, 1)
+					return pass(typ, topic, data, dsts, victim) // withheld from the victim
+				}
+				return pass(typ, topic, data, dsts, 0xffff)
+			})
+			cl.Net.SetInterceptor(2, func(nw *simnet.Net, src uint16, typ uint8, topic, data []byte, dsts []uint16) []simnet.Outgoing {
+				if typ == uint8(tss.MsgTypeMPC) && len(dsts) >= c.n-1 && len(data) > 30 {
+					if data[0]>>7 == 1 {
+						for _, d := range []uint16{1, victim} {
+							nw.Inject(40, simnet.Outgoing{Dst: d, Type: typ, Topic: topic, Data: data, Tag: "replica-payload"})
+						}
+					} else if data[1] == 0 && data[2] == 1 {
+						nw.Inject(40, simnet.Outgoing{Dst: 2, Type: typ, Topic: topic, Data: data, Tag: "replica-voucher"})
+					}
+				}
+				return pass(typ, topic, data, dsts, 0xffff)
+			})
+		}
 		outs, errs := keygen(1500 * time.Millisecond)
 		cl.Net.Stop()
 		var completers []uint16
